@@ -102,6 +102,17 @@ class RuleClassModel(RecordModel):
     def isinstance_(self, ex, rec, c):
         return z3.BoolVal(c.py in (object, type))
 
+    def getattr(self, ex, rec, name, node):
+        if name not in rec.fields:
+            r = self.class_model.find(name)
+            if r is not None and r[0] == "method":
+                import ast as _ast
+                deco = [d.id for d in r[1].decorator_list if isinstance(d, _ast.Name)]
+                if "classmethod" in deco:
+                    # the record IS the class: classmethods are bound to it
+                    return self.world.repo_function(r[2].relpath, "%s.%s" % (r[2].clsname, name), ex, bound=rec)
+        return RecordModel.getattr(self, ex, rec, name, node)
+
     def call(self, ex, rec, args, kwargs, node):
         raise Unsupported("call of a Rule class")
 
@@ -353,7 +364,8 @@ class PARSE_SEQ_ARGS:
     only_raises = ["ParseError"]
     frame = ["value", "cls"]
     modifies = ["context.errors"]
-    tags = {"fresh_result": ["C19"], "no_error_recorded": ["C10"], "one_error_per_offender": ["C10"]}
+    tags = {"fresh_result": ["C19", "C11"], "no_error_recorded": ["C10", "C11"], "one_error_per_offender": ["C10", "C11"],
+            "only_raises": ["C04"], "no_input_mutation": ["C19", "C11"]}
 
 
 def _seq_inv():
@@ -522,7 +534,8 @@ class PARSE_TUPLE_ARGS:
     only_raises = ["ParseError"]
     frame = ["value", "cls"]
     modifies = ["context.errors"]
-    tags = {"fresh_result": ["C19"], "excess_rule": ["C12"], "clean_excess_rule": ["C12"]}
+    tags = {"fresh_result": ["C19", "C11"], "excess_rule": ["C12", "C11"], "clean_excess_rule": ["C12", "C11"], "only_raises": ["C04"],
+            "no_input_mutation": ["C19", "C11"]}
     assumes = ["__origin__ is tuple itself (a tuple subclass goes through its own constructor: t(x) external)"]
 
 
@@ -659,7 +672,7 @@ class PARSE_MAP_ARGS:
     only_raises = ["ParseError"]
     frame = ["value", "cls"]
     modifies = ["context.errors"]
-    tags = {"fresh_result": ["C19"]}
+    tags = {"fresh_result": ["C19", "C11"], "only_raises": ["C04"], "no_input_mutation": ["C19", "C11"]}
     assumes = ["converted keys are hashable (an unhashable converted key raises TypeError at result[key] = val: see findings)"]
 
 
@@ -765,10 +778,12 @@ def _parse_cases():
         cls=RULE(__origin__=Cls(name="origin"), __args_parser__=NONE, __validators__=VALIDATORS, contains=NONE,
                  __options__=Rec("Options")), value=OBJ, context=NONE)
     out["origin,contains,fail-fast"] = dict(
-        cls=RULE(__origin__=Cls(name="origin"), __args_parser__=NONE, __validators__=VALIDATORS, contains=Cls(name="contains")),
+        cls=RULE(__origin__=Cls(name="origin"), __args_parser__=NONE, __validators__=VALIDATORS, contains=Cls(name="contains"),
+                 min_contains=NONE, max_contains=POS),
         value=OBJ, context=Rec("RuntimeContext", options=Rec("Options", collect_errors=FALSE, max_errors=NONE)))
     out["origin,contains,collect"] = dict(
-        cls=RULE(__origin__=Cls(name="origin"), __args_parser__=NONE, __validators__=VALIDATORS, contains=Cls(name="contains")),
+        cls=RULE(__origin__=Cls(name="origin"), __args_parser__=NONE, __validators__=VALIDATORS, contains=Cls(name="contains"),
+                 min_contains=POS, max_contains=NONE),
         value=OBJ, context=Rec("RuntimeContext", options=Rec("Options", collect_errors=TRUE, max_errors=NONE)))
     return out
 
@@ -795,7 +810,7 @@ class RULE_PARSE:
     only_raises = ["ParseError"]
     frame = ["value", "cls"]
     modifies = ["context.errors"]
-    tags = {"verdict_is_clean": ["C10"], "only_raises": ["C04"]}
+    tags = {"verdict_is_clean": ["C10"], "only_raises": ["C04"], "no_input_mutation": ["C19"]}
     assumes = ["pre_validate / post_validate are the identity hooks of Rule (inlined from the source; user overrides are outside the claim)",
                "context.tmp_errors is empty on entry when the final raise_error is reached (callers pass a context whose pending union errors were cleared)"]
 
